@@ -2,6 +2,7 @@ package gosym
 
 import (
 	"fmt"
+	"sync"
 	"go/constant"
 	"go/token"
 	"go/types"
@@ -21,9 +22,52 @@ type deferred struct {
 	site *ssa.Defer
 }
 
+type fnInfo struct {
+	name     string
+	intr     intrinsic
+	index    map[ssa.Value]int
+	n        int
+	interp   bool
+	skipInit bool
+}
+
+var fnInfos sync.Map // *ssa.Function -> *fnInfo
+
+func infoOf(fn *ssa.Function) *fnInfo {
+	if v, ok := fnInfos.Load(fn); ok {
+		return v.(*fnInfo)
+	}
+	fi := &fnInfo{name: fn.String(), index: map[ssa.Value]int{}}
+	fi.intr = intrinsics[fi.name]
+	fi.interp = interpretable(fn)
+	fi.skipInit = fn.Pkg != nil && !isModule(fn.Pkg) && fn.Name() == "init" && fn.Signature.Recv() == nil
+	add := func(v ssa.Value) {
+		if _, ok := fi.index[v]; !ok {
+			fi.index[v] = fi.n
+			fi.n++
+		}
+	}
+	for _, p := range fn.Params {
+		add(p)
+	}
+	for _, fv := range fn.FreeVars {
+		add(fv)
+	}
+	for _, b := range fn.Blocks {
+		for _, in := range b.Instrs {
+			if v, ok := in.(ssa.Value); ok {
+				add(v)
+			}
+		}
+	}
+	act, _ := fnInfos.LoadOrStore(fn, fi)
+	return act.(*fnInfo)
+}
+
 type frame struct {
 	fn     *ssa.Function
-	env    map[ssa.Value]Value
+	info   *fnInfo
+	env    []Value
 	block  *ssa.BasicBlock
 	prev   *ssa.BasicBlock
 	defers []deferred
@@ -50,8 +94,8 @@ func (c *Ctx) get(fr *frame, v ssa.Value) Value {
 	case *ssa.Builtin:
 		return v
 	}
-	if r, ok := fr.env[v]; ok {
-		return r
+	if i, ok := fr.info.index[v]; ok {
+		return fr.env[i]
 	}
 	panic(fmt.Sprintf("get: no value for %T %s in %s", v, v.Name(), fr.fn))
 }
@@ -140,22 +184,22 @@ func (c *Ctx) call(fn Value, args []Value, pos token.Pos) Value {
 }
 
 func (c *Ctx) callSSA(fn *ssa.Function, args []Value, env []Value) Value {
-	name := fn.String()
-	if fn.Pkg != nil && !isModule(fn.Pkg) && fn.Name() == "init" && fn.Signature.Recv() == nil {
+	fi := infoOf(fn)
+	if fi.skipInit {
 		return nil // initialisers of packages outside the module are not run
 	}
-	if in, ok := intrinsics[name]; ok {
-		return in(c, args)
+	if fi.intr != nil {
+		return fi.intr(c, args)
 	}
 	if fn.Pkg != nil {
 		c.ensureInit(fn.Pkg)
 	}
 	if fn.Blocks == nil {
 		// generic instance bodies live with their origin; external functions have none
-		c.Unsupported("no body and no model for %s", name)
+		c.Unsupported("no body and no model for %s", fi.name)
 	}
-	if !interpretable(fn) {
-		c.Unsupported("no model for %s", name)
+	if !fi.interp {
+		c.Unsupported("no model for %s", fi.name)
 	}
 	return c.interpretEnv(fn, args, env)
 }
@@ -193,15 +237,16 @@ func (c *Ctx) interpretEnv(fn *ssa.Function, args []Value, env []Value) (result 
 		c.maxDepth = c.depth
 	}
 	if c.depth > c.budget.Depth {
-		panic(pathEnd{Reason: "depth", Detail: fn.String()})
+		panic(pathEnd{Reason: "depth", Detail: infoOf(fn).name})
 	}
-	c.stack = append(c.stack, fn.String())
-	fr := &frame{fn: fn, env: make(map[ssa.Value]Value, 32)}
+	fi := infoOf(fn)
+	c.stack = append(c.stack, fi.name)
+	fr := &frame{fn: fn, info: fi, env: make([]Value, fi.n)}
 	for i, p := range fn.Params {
-		fr.env[p] = args[i]
+		fr.env[fi.index[p]] = args[i]
 	}
 	for i, fv := range fn.FreeVars {
-		fr.env[fv] = env[i]
+		fr.env[fi.index[fv]] = env[i]
 	}
 	fr.block = fn.Blocks[0]
 	for !fr.done {
@@ -238,13 +283,13 @@ func (c *Ctx) runBlock(fr *frame) {
 			vals = append(vals, c.get(fr, ph.Edges[pi]))
 		}
 		for i, v := range vals {
-			fr.env[b.Instrs[i].(*ssa.Phi)] = v
+			fr.env[fr.info.index[b.Instrs[i].(*ssa.Phi)]] = v
 		}
 	}
 	for _, in := range b.Instrs {
 		if Trace != "" && fr.fn.Name() == Trace {
 			if v, ok := in.(ssa.Value); ok {
-				defer func(v ssa.Value, in ssa.Instruction) { fmt.Printf("  %s: %s = %s   => %s\n", b, v.Name(), in, describe(fr.env[v])) }(v, in)
+				defer func(v ssa.Value, in ssa.Instruction) { fmt.Printf("  %s: %s = %s   => %s\n", b, v.Name(), in, describe(fr.env[fr.info.index[v]])) }(v, in)
 			} else {
 				fmt.Printf("  %s: %s\n", b, in)
 			}
@@ -253,27 +298,27 @@ func (c *Ctx) runBlock(fr *frame) {
 		case *ssa.DebugRef:
 		case *ssa.Phi:
 		case *ssa.UnOp:
-			fr.env[in] = c.unop(fr, in)
+			fr.env[fr.info.index[in]] = c.unop(fr, in)
 		case *ssa.BinOp:
-			fr.env[in] = c.binop(in.Op, in.X.Type(), c.get(fr, in.X), c.get(fr, in.Y), in.Y.Type())
+			fr.env[fr.info.index[in]] = c.binop(in.Op, in.X.Type(), c.get(fr, in.X), c.get(fr, in.Y), in.Y.Type())
 		case *ssa.Call:
-			fr.env[in] = c.doCall(fr, &in.Call, in.Pos())
+			fr.env[fr.info.index[in]] = c.doCall(fr, &in.Call, in.Pos())
 		case *ssa.ChangeInterface:
-			fr.env[in] = c.get(fr, in.X)
+			fr.env[fr.info.index[in]] = c.get(fr, in.X)
 		case *ssa.ChangeType:
-			fr.env[in] = c.get(fr, in.X)
+			fr.env[fr.info.index[in]] = c.get(fr, in.X)
 		case *ssa.Convert:
-			fr.env[in] = c.convert(in.X.Type(), in.Type(), c.get(fr, in.X))
+			fr.env[fr.info.index[in]] = c.convert(in.X.Type(), in.Type(), c.get(fr, in.X))
 		case *ssa.MultiConvert:
-			fr.env[in] = c.convert(in.X.Type(), in.Type(), c.get(fr, in.X))
+			fr.env[fr.info.index[in]] = c.convert(in.X.Type(), in.Type(), c.get(fr, in.X))
 		case *ssa.SliceToArrayPointer:
 			c.Unsupported("SliceToArrayPointer")
 		case *ssa.MakeInterface:
-			fr.env[in] = Iface{T: in.X.Type(), V: copyVal(c.get(fr, in.X))}
+			fr.env[fr.info.index[in]] = Iface{T: in.X.Type(), V: copyVal(c.get(fr, in.X))}
 		case *ssa.Extract:
-			fr.env[in] = c.get(fr, in.Tuple).(Tuple)[in.Index]
+			fr.env[fr.info.index[in]] = c.get(fr, in.Tuple).(Tuple)[in.Index]
 		case *ssa.Slice:
-			fr.env[in] = c.sliceOp(fr, in)
+			fr.env[fr.info.index[in]] = c.sliceOp(fr, in)
 		case *ssa.Return:
 			switch len(in.Results) {
 			case 0:
@@ -319,7 +364,7 @@ func (c *Ctx) runBlock(fr *frame) {
 		case *ssa.Alloc:
 			p := new(Value)
 			*p = zero(in.Type().(*types.Pointer).Elem())
-			fr.env[in] = p
+			fr.env[fr.info.index[in]] = p
 		case *ssa.MakeSlice:
 			n := c.concInt(c.get(fr, in.Len), "MakeSlice len")
 			cp := c.concInt(c.get(fr, in.Cap), "MakeSlice cap")
@@ -328,27 +373,27 @@ func (c *Ctx) runBlock(fr *frame) {
 			for i := range el {
 				el[i] = zero(et)
 			}
-			fr.env[in] = Slice{Elems: el}
+			fr.env[fr.info.index[in]] = Slice{Elems: el}
 		case *ssa.MakeMap:
-			fr.env[in] = NewMap(in.Type().Underlying().(*types.Map).Key())
+			fr.env[fr.info.index[in]] = NewMap(in.Type().Underlying().(*types.Map).Key())
 		case *ssa.Range:
-			fr.env[in] = c.rangeIter(c.get(fr, in.X), in.X.Type())
+			fr.env[fr.info.index[in]] = c.rangeIter(c.get(fr, in.X), in.X.Type())
 		case *ssa.Next:
-			fr.env[in] = c.get(fr, in.Iter).(*iter).next(c)
+			fr.env[fr.info.index[in]] = c.get(fr, in.Iter).(*iter).next(c)
 		case *ssa.FieldAddr:
 			p := c.get(fr, in.X)
 			if p == nil {
 				c.goPanic("runtime error: invalid memory address or nil pointer dereference", nil)
 			}
-			fr.env[in] = &(*(p.(*Value))).(Struct)[in.Field]
+			fr.env[fr.info.index[in]] = &(*(p.(*Value))).(Struct)[in.Field]
 		case *ssa.Field:
-			fr.env[in] = c.get(fr, in.X).(Struct)[in.Field]
+			fr.env[fr.info.index[in]] = c.get(fr, in.X).(Struct)[in.Field]
 		case *ssa.IndexAddr:
-			fr.env[in] = c.indexAddr(fr, in)
+			fr.env[fr.info.index[in]] = c.indexAddr(fr, in)
 		case *ssa.Index:
-			fr.env[in] = c.index(fr, in)
+			fr.env[fr.info.index[in]] = c.index(fr, in)
 		case *ssa.Lookup:
-			fr.env[in] = c.lookup(fr, in)
+			fr.env[fr.info.index[in]] = c.lookup(fr, in)
 		case *ssa.MapUpdate:
 			m := c.get(fr, in.Map).(*Map)
 			if m == nil {
@@ -356,13 +401,13 @@ func (c *Ctx) runBlock(fr *frame) {
 			}
 			m.Set(c, c.get(fr, in.Key), copyVal(c.get(fr, in.Value)))
 		case *ssa.TypeAssert:
-			fr.env[in] = c.typeAssert(in, c.get(fr, in.X))
+			fr.env[fr.info.index[in]] = c.typeAssert(in, c.get(fr, in.X))
 		case *ssa.MakeClosure:
 			cl := &Closure{Fn: in.Fn.(*ssa.Function)}
 			for _, b := range in.Bindings {
 				cl.Env = append(cl.Env, c.get(fr, b))
 			}
-			fr.env[in] = cl
+			fr.env[fr.info.index[in]] = cl
 		default:
 			c.Unsupported("instruction %T in %s", in, fr.fn)
 		}
